@@ -77,6 +77,13 @@ func (c *Ctx) lockFacts() *lockFacts {
 func (lf *lockFacts) mutexOfValue(v ssa.Value) (lockKey, bool) {
 	v = ir.Strip(v)
 	switch x := v.(type) {
+	case *ssa.Parameter:
+		// a helper that is handed the lock to work on (`func WithLock(l
+		// sync.Locker, fn func())`): inside the helper the parameter is the
+		// lock's name
+		if pv, _ := x.Object().(*types.Var); pv != nil {
+			return lockKey{pv}, true
+		}
 	case *ssa.FieldAddr:
 		f := ir.FieldOfAddr(x)
 		// cond.L field of a sync.Cond held in a struct field
